@@ -19,7 +19,7 @@ class Creators:
       gfapy.error.FormatError : If the content of the line string is
         not valid
     """
-    if gfa_line is None:
+    if gfa_line is None or gfa_line == "":
       return
     if self._version == "gfa1":
       self.__add_line_GFA1(gfa_line)
